@@ -53,7 +53,7 @@ class Baton(object):
             if frame.f_code.co_filename.startswith(ASYNQ_DIR):
                 self.in_asynq += 1
             if self.rng.random() < self.p:
-                self.switch(threading.current_thread().name)
+                self.switch(threading.current_thread().sim_id)
         return self.local_trace
 
     def switch(self, me):
@@ -76,7 +76,45 @@ class Baton(object):
             self.done.release()
 
 
+def _run_aio(result, name, n_yields):
+    """A thread that spends its life inside fn.asyncio() on its own event loop, suspended at
+    `await asyncio.sleep(0)` points: other threads' ordinary computations must not notice."""
+    import asyncio
+
+    @A.asynq()
+    def leaf(i):
+        return i
+
+    @A.asynq()
+    def fn():
+        tot = 0
+        for i in range(n_yields):
+            tot += (yield leaf.asynq(i))
+        return tot
+
+    async def main():
+        acc = 0
+        for _ in range(3):
+            acc += await fn.asyncio()
+            await asyncio.sleep(0)
+        return acc
+    loop = asyncio.new_event_loop()
+    try:
+        result["out"] = ("V", repr(loop.run_until_complete(main())))
+    except BaseException as e:
+        result["out"] = ("X", "%s: %s" % (type(e).__name__, str(e)[:200]))
+    finally:
+        loop.close()
+    result["trace"] = []
+    result["perf"] = len(A.profiler.flush())
+    result["sched"] = A.scheduler.get_scheduler()  # kept alive: identities stay comparable
+    result["viol"] = []
+    result["dd_foreign"] = []
+
+
 def _run_program(spec, result, name):
+    if spec.get("aio_thread"):
+        return _run_aio(result, name, int(spec.get("n_yields", 3)))
     B = real.RealBackend(spec, ("C08",))
     try:
         o = B.run()
@@ -88,7 +126,7 @@ def _run_program(spec, result, name):
     result["B"] = B
     result["trace"] = B.canon_trace()
     result["perf"] = len(A.profiler.flush())
-    result["sched"] = id(A.scheduler.get_scheduler())
+    result["sched"] = A.scheduler.get_scheduler()  # kept alive: identities stay comparable
     result["viol"] = [(c, m) for (p, c, m, n) in B.violations]
     result["dd_foreign"] = [real.DD_OWNER.get(id(t)) for t in B.dd_tasks if real.DD_OWNER.get(id(t)) not in (None, name)]
 
@@ -109,12 +147,15 @@ class C16(object):
             spec = gen.gen_program(rng, cfg)
             spec["threaded"] = True
             progs.append(spec)
+        if rng.random() < 0.3:
+            progs.insert(rng.randint(0, len(progs)), {"aio_thread": True, "n_yields": rng.randint(1, 4), "templates": []})
         return {"programs": progs, "seed": rng.randint(0, 10 ** 9), "p_switch": rng.choice([0.002, 0.01, 0.05, 0.2]),
-                "perf": rng.random() < 0.5}
+                "perf": rng.random() < 0.5, "same_thread_names": rng.random() < 0.3}
 
     def sample(self, case, r):
         return {"threads": len(case["programs"]), "p_switch": case["p_switch"], "perf": case["perf"],
-                "first_program": case["programs"][0]["templates"][:2], "switches": r.get("switches")}
+                "first_program": case["programs"][0].get("templates", [])[:2], "switches": r.get("switches"),
+                "same_thread_names": case.get("same_thread_names"), "asyncio_thread": any(p.get("aio_thread") for p in case["programs"])}
 
     def run(self, case, build):
         real.reset_world()
@@ -123,7 +164,9 @@ class C16(object):
         opts.COLLECT_PERF_STATS = bool(case.get("perf"))
         real.simenv.clock.configure({"seed": 1, "mode": "small"})
         progs = case.get("programs", [])
-        names = ["T%d" % i for i in range(len(progs))]
+        names = ["T%d" % i for i in range(len(progs))]  # harness ids
+        # the threads' *names* may all be the same (thread names are not unique identifiers)
+        tnames = ["worker"] * len(progs) if case.get("same_thread_names") else names
         out = []
         gc_was = gc.isenabled()
         gc.disable()
@@ -132,7 +175,8 @@ class C16(object):
             solo = []
             for name, spec in zip(names, progs):
                 res = {}
-                t = threading.Thread(target=_run_program, args=(copy.deepcopy(spec), res, name), name=name)
+                t = threading.Thread(target=_run_program, args=(copy.deepcopy(spec), res, name), name=tnames[names.index(name)])
+                t.sim_id = name
                 t.start()
                 t.join()
                 if "harness" in res:
@@ -153,7 +197,9 @@ class C16(object):
                 finally:
                     sys.settrace(None)
                     baton.finish(me)
-            threads = [threading.Thread(target=body, args=(i,), name=names[i]) for i in range(len(progs))]
+            threads = [threading.Thread(target=body, args=(i,), name=tnames[i]) for i in range(len(progs))]
+            for i, t in enumerate(threads):
+                t.sim_id = names[i]
             for t in threads:
                 t.start()
             if threads:
@@ -165,7 +211,7 @@ class C16(object):
         finally:
             if gc_was:
                 gc.enable()
-        scheds = [c.get("sched") for c in conc]
+        scheds = [id(c.get("sched")) for c in conc if c.get("sched") is not None]
         if len(set(scheds)) != len(scheds):
             out.append(("own-scheduler", "two threads observed the same scheduler object"))
         for i, (s, c) in enumerate(zip(solo, conc)):
